@@ -30,7 +30,7 @@ class Check(BaseCheck):
             'distinct = distinct (operator, operands, injection).')
     ASSUMPTIONS = ('which text spells a date is decided by dateutil (trusted base); non-numeric text is screened with it',
                    'date results with serial in [0,61) (January/February 1900) or beyond 9999-12-31 are not judged',
-                   'one-element and empty arrays are not judged; for & only text, integers and blanks are claimed',
+                   'one-element arrays (which combine like a scalar) are judged for commutativity only, empty arrays not at all; for & only text, integers and blanks are claimed',
                    'result kind = date iff exactly one operand is date-like, except blank/date -> number (pinned by test_implicit_conversions_blank)')
 
     def plan(self, tier, seed):
@@ -80,11 +80,11 @@ class Check(BaseCheck):
 
     def gen(self, rnd, cls):
         if cls == 'array':
-            n = rnd.randint(2, 6)
+            n = rnd.choice([1, 2, 2, 3, 4, 5, 6])       # one-element arrays: only commutativity is judged (see ASSUMPTIONS)
             return [GV.gen(rnd, rnd.choice(['int', 'float', 'int', 'bool', 'blank', 'numtext', 'text', 'date'])) for _ in range(n)]
         if cls == 'nested':
-            k = rnd.randint(2, 4)
-            return [[GV.gen(rnd, rnd.choice(['int', 'float', 'numtext'])) for _ in range(k)] for _ in range(2)]
+            k, rows = rnd.choice([1, 2, 2, 3, 4]), rnd.choice([1, 2, 2, 2, 3])      # also 1xk, kx1 and 1x1: commutativity only
+            return [[GV.gen(rnd, rnd.choice(['int', 'float', 'numtext'])) for _ in range(k)] for _ in range(rows)]
         v = GV.gen(rnd, cls)
         if cls == 'text' and (self.pdt(v) is not None or M.spelled_number_safe(v)):
             return 'abc'
@@ -171,7 +171,8 @@ class Check(BaseCheck):
                         if op in '+*':
                             r2 = self.judge_one(rec, op, b, a, how, cb, ca)
                             if outcome(r1) != outcome(r2):
-                                rec.violation('C06/%s-not-commutative:%s-%s' % (op, GV.broad_class(a), GV.broad_class(b)), a=a, b=b, ab=r1, ba=r2)
+                                single = any(isinstance(x, list) and (len(x) == 1 or (isinstance(x[0], list) and len(x[0]) == 1)) for x in (a, b))
+                                rec.violation('C06/%s-not-commutative:%s-%s%s' % (op, GV.broad_class(a), GV.broad_class(b), ':one-element-array' if single else ''), a=a, b=b, ab=r1, ba=r2)
                             rec.count('commutativity_pairs')
                     rec.sample({'a': repr(a), 'b': repr(b), 'ops': OPS})
 
